@@ -35,7 +35,10 @@ mod shared;
 use shared::*;
 
 use crate::verif_hooks::{bind_retry, no_time_wait};
-use rustybgp_packet::bgp::{Attribute, FamilyState, Ipv4Net, Ipv6Net, Nexthop, Nlri, ParsedMessage, ParsedUpdate, PathNlri, PeerCodec};
+use rustybgp_packet::bgp::{
+    Attribute, FamilyState, Ipv4Net, Ipv6Net, Nexthop, Nlri, ParsedMessage, ParsedUpdate, PathNlri,
+    PeerCodec,
+};
 use std::collections::{BTreeMap, BTreeSet};
 use std::time::Instant;
 use tokio::io::AsyncReadExt;
@@ -89,7 +92,11 @@ fn peer_addr(i: usize) -> IpAddr {
 }
 
 fn peer_asn(i: usize) -> u32 {
-    if i == 2 { 4_200_000_018 } else { 65100 + i as u32 }
+    if i == 2 {
+        4_200_000_018
+    } else {
+        65100 + i as u32
+    }
 }
 
 fn peer_id(i: usize) -> Ipv4Addr {
@@ -98,9 +105,21 @@ fn peer_id(i: usize) -> Ipv4Addr {
 
 fn prefix(p: usize, j: usize) -> (Family, Nlri) {
     if j % 4 == 3 {
-        (Family::IPV6, Nlri::V6(Ipv6Net { addr: Ipv6Addr::new(0x2001, 0xdb8, 0x18, (p * 16 + j) as u16, 0, 0, 0, 0), mask: 64 }))
+        (
+            Family::IPV6,
+            Nlri::V6(Ipv6Net {
+                addr: Ipv6Addr::new(0x2001, 0xdb8, 0x18, (p * 16 + j) as u16, 0, 0, 0, 0),
+                mask: 64,
+            }),
+        )
     } else {
-        (Family::IPV4, Nlri::V4(Ipv4Net { addr: Ipv4Addr::new(172, 18 + p as u8, j as u8, 0), mask: 24 }))
+        (
+            Family::IPV4,
+            Nlri::V4(Ipv4Net {
+                addr: Ipv4Addr::new(172, 18 + p as u8, j as u8, 0),
+                mask: 24,
+            }),
+        )
     }
 }
 
@@ -121,11 +140,20 @@ struct World {
 fn attrs(asn: u32, tag: u32) -> Arc<Vec<Attribute>> {
     let mut p = vec![2u8, 1];
     p.extend_from_slice(&asn.to_be_bytes());
-    Arc::new(vec![Attribute::new_with_value(Attribute::ORIGIN, 0).unwrap(), Attribute::new_with_bin(Attribute::AS_PATH, p).unwrap(), Attribute::new_with_value(Attribute::MULTI_EXIT_DESC, tag).unwrap()])
+    Arc::new(vec![
+        Attribute::new_with_value(Attribute::ORIGIN, 0).unwrap(),
+        Attribute::new_with_bin(Attribute::AS_PATH, p).unwrap(),
+        Attribute::new_with_value(Attribute::MULTI_EXIT_DESC, tag).unwrap(),
+    ])
 }
 
 fn open_msg(asn: u32, id: Ipv4Addr) -> bgp::Message {
-    bgp::Message::Open(bgp::Open { as_number: asn, holdtime: HoldTime::new(90).unwrap(), router_id: u32::from(id), capability: vec![packet::Capability::FourOctetAsNumber(asn)] })
+    bgp::Message::Open(bgp::Open {
+        as_number: asn,
+        holdtime: HoldTime::new(90).unwrap(),
+        router_id: u32::from(id),
+        capability: vec![packet::Capability::FourOctetAsNumber(asn)],
+    })
 }
 
 impl World {
@@ -139,20 +167,40 @@ impl World {
                 }
                 self.next_port += 1;
                 let port = self.next_port;
-                let local: IpAddr = if peer_addr(p).is_ipv6() { "2001:db8:18::1".parse().unwrap() } else { IpAddr::V4(Ipv4Addr::new(10, 18, 0, 254)) };
+                let local: IpAddr = if peer_addr(p).is_ipv6() {
+                    "2001:db8:18::1".parse().unwrap()
+                } else {
+                    IpAddr::V4(Ipv4Addr::new(10, 18, 0, 254))
+                };
                 {
                     // apply_outputs(SessionEstablished): state, then on_established() -> tables.peer_up()
                     let g = self.global.read().await;
                     let peer = g.peers.get(&peer_addr(p)).unwrap();
                     peer.state.remote_asn.store(peer_asn(p), Ordering::Relaxed);
-                    peer.state.remote_id.store(u32::from(peer_id(p)), Ordering::Relaxed);
+                    peer.state
+                        .remote_id
+                        .store(u32::from(peer_id(p)), Ordering::Relaxed);
                     peer.state.remote_holdtime.store(90, Ordering::Relaxed);
-                    peer.state.remote_cap.store(Some(Arc::new(vec![packet::Capability::FourOctetAsNumber(peer_asn(p))])));
-                    peer.state.peer_up_at.store(1_700_000_000 + port as u64, Ordering::Relaxed);
-                    peer.state.session_addrs.store(Some(Arc::new(SessionAddrs { local: SocketAddr::new(local, 179), remote_port: port })));
+                    peer.state.remote_cap.store(Some(Arc::new(vec![
+                        packet::Capability::FourOctetAsNumber(peer_asn(p)),
+                    ])));
+                    peer.state
+                        .peer_up_at
+                        .store(1_700_000_000 + port as u64, Ordering::Relaxed);
+                    peer.state.session_addrs.store(Some(Arc::new(SessionAddrs {
+                        local: SocketAddr::new(local, 179),
+                        remote_port: port,
+                    })));
                 }
                 self.pending_cleanup[p] = false;
-                let src = Arc::new(table::Source::new(peer_addr(p), local, peer_asn(p), LOCAL_ASN, peer_id(p), table::PeerRole::Ebgp));
+                let src = Arc::new(table::Source::new(
+                    peer_addr(p),
+                    local,
+                    peer_asn(p),
+                    LOCAL_ASN,
+                    peer_id(p),
+                    table::PeerRole::Ebgp,
+                ));
                 self.tables.peer_up(PeerUpData {
                     peer_addr: peer_addr(p),
                     peer_asn: peer_asn(p),
@@ -170,19 +218,34 @@ impl World {
                 true
             }
             Op::EndFsm(p) | Op::EndDirect(p) => {
-                let Some((src, port)) = self.sess[p].take() else { return false };
+                let Some((src, port)) = self.sess[p].take() else {
+                    return false;
+                };
                 let fsm = matches!(op, Op::EndFsm(_));
                 if fsm {
                     let g = self.global.read().await;
-                    g.peers.get(&peer_addr(p)).unwrap().state.session_addrs.store(None);
+                    g.peers
+                        .get(&peer_addr(p))
+                        .unwrap()
+                        .state
+                        .session_addrs
+                        .store(None);
                 } else {
                     self.pending_cleanup[p] = true;
                 }
                 // session_loop: unregister_peer (drops the families; no graceful restart), then peer_down
-                self.tables.unregister_peer(src.remote_addr, &[Family::IPV4, Family::IPV6], &[]);
-                self.tables.peer_down(PeerDownData { peer_addr: src.remote_addr, peer_asn: src.remote_asn, peer_id: src.router_id, uptime: 1_700_000_000 + port as u64, reason: packet::bmp::PeerDownReason::RemoteUnexpected });
+                self.tables
+                    .unregister_peer(src.remote_addr, &[Family::IPV4, Family::IPV6], &[]);
+                self.tables.peer_down(PeerDownData {
+                    peer_addr: src.remote_addr,
+                    peer_asn: src.remote_asn,
+                    peer_id: src.router_id,
+                    uptime: 1_700_000_000 + port as u64,
+                    reason: packet::bmp::PeerDownReason::RemoteUnexpected,
+                });
                 self.routes[p].clear();
-                self.log.push(format!("{} P{} (port {})", op.kind(), p, port));
+                self.log
+                    .push(format!("{} P{} (port {})", op.kind(), p, port));
                 true
             }
             Op::Cleanup(p) => {
@@ -192,14 +255,25 @@ impl World {
                 self.pending_cleanup[p] = false;
                 // PeerSession::run(): only if no newer connection exists (e2336bb); Up() clears the flag
                 let mut g = self.global.write().await;
-                g.peers.get_mut(&peer_addr(p)).unwrap().clear_session_state();
+                g.peers
+                    .get_mut(&peer_addr(p))
+                    .unwrap()
+                    .clear_session_state();
                 self.log.push(format!("cleanup P{}", p));
                 true
             }
             Op::Announce(p) | Op::Replace(p) => {
-                let Some((src, _)) = self.sess[p].clone() else { return false };
+                let Some((src, _)) = self.sess[p].clone() else {
+                    return false;
+                };
                 let j = if matches!(op, Op::Replace(_)) {
-                    let Some(j) = self.routes[p].iter().nth(rng.usize(self.routes[p].len().max(1))).copied() else { return false };
+                    let Some(j) = self.routes[p]
+                        .iter()
+                        .nth(rng.usize(self.routes[p].len().max(1)))
+                        .copied()
+                    else {
+                        return false;
+                    };
                     j
                 } else {
                     let free: Vec<usize> = (0..6).filter(|j| !self.routes[p].contains(j)).collect();
@@ -210,17 +284,50 @@ impl World {
                 };
                 let (fam, nlri) = prefix(p, j);
                 self.tag += 1;
-                let nh = if fam == Family::IPV6 { Nexthop::V6("2001:db8:18::99".parse().unwrap()) } else { Nexthop::V4(Ipv4Addr::new(10, 18, 0, 99)) };
-                self.tables.insert_route(src.clone(), fam, PathNlri { path_id: 0, nlri: nlri.clone() }, Some(nh), attrs(src.remote_asn, self.tag), None, self.tag);
+                let nh = if fam == Family::IPV6 {
+                    Nexthop::V6("2001:db8:18::99".parse().unwrap())
+                } else {
+                    Nexthop::V4(Ipv4Addr::new(10, 18, 0, 99))
+                };
+                self.tables.insert_route(
+                    src.clone(),
+                    fam,
+                    PathNlri {
+                        path_id: 0,
+                        nlri: nlri.clone(),
+                    },
+                    Some(nh),
+                    attrs(src.remote_asn, self.tag),
+                    None,
+                    self.tag,
+                );
                 self.routes[p].insert(j);
-                self.log.push(format!("{} P{} {} tag {}", op.kind(), p, nlri, self.tag));
+                self.log
+                    .push(format!("{} P{} {} tag {}", op.kind(), p, nlri, self.tag));
                 true
             }
             Op::Withdraw(p) => {
-                let Some((src, _)) = self.sess[p].clone() else { return false };
-                let Some(j) = self.routes[p].iter().nth(rng.usize(self.routes[p].len().max(1))).copied() else { return false };
+                let Some((src, _)) = self.sess[p].clone() else {
+                    return false;
+                };
+                let Some(j) = self.routes[p]
+                    .iter()
+                    .nth(rng.usize(self.routes[p].len().max(1)))
+                    .copied()
+                else {
+                    return false;
+                };
                 let (fam, nlri) = prefix(p, j);
-                self.tables.remove_route(src, fam, PathNlri { path_id: 0, nlri: nlri.clone() }, None, 0);
+                self.tables.remove_route(
+                    src,
+                    fam,
+                    PathNlri {
+                        path_id: 0,
+                        nlri: nlri.clone(),
+                    },
+                    None,
+                    0,
+                );
                 self.routes[p].remove(&j);
                 self.log.push(format!("withdraw P{} {}", p, nlri));
                 true
@@ -273,10 +380,17 @@ fn rib_adj_in(tables: &TableManager, peer: IpAddr, post: bool) -> BTreeMap<Route
     for shard in &tables.shards {
         let s = shard.lock().unwrap();
         for f in s.rtable.families().collect::<Vec<_>>() {
-            let it: Vec<table::Reach> = if post { s.rtable.iter_reach_post(f).collect() } else { s.rtable.iter_reach(f).collect() };
+            let it: Vec<table::Reach> = if post {
+                s.rtable.iter_reach_post(f).collect()
+            } else {
+                s.rtable.iter_reach(f).collect()
+            };
             for r in it {
                 if r.source.remote_addr == peer {
-                    m.insert((fam_id(f), r.net.nlri.to_string(), r.net.path_id), (attrs_canon(&r.attr), nh_str(&r.nexthop)));
+                    m.insert(
+                        (fam_id(f), r.net.nlri.to_string(), r.net.path_id),
+                        (attrs_canon(&r.attr), nh_str(&r.nexthop)),
+                    );
                 }
             }
         }
@@ -294,10 +408,31 @@ struct Scenario {
 
 /// all operation sequences of the given length over P1 / P2
 fn sequences(len: usize) -> Vec<Vec<Op>> {
-    let alphabet: Vec<Op> = (1..=2).flat_map(|p| [Op::EndFsm(p), Op::EndDirect(p), Op::Up(p), Op::Announce(p), Op::Withdraw(p), Op::Replace(p), Op::Cleanup(p)]).collect();
+    let alphabet: Vec<Op> = (1..=2)
+        .flat_map(|p| {
+            [
+                Op::EndFsm(p),
+                Op::EndDirect(p),
+                Op::Up(p),
+                Op::Announce(p),
+                Op::Withdraw(p),
+                Op::Replace(p),
+                Op::Cleanup(p),
+            ]
+        })
+        .collect();
     let mut out: Vec<Vec<Op>> = vec![vec![]];
     for _ in 0..len {
-        out = out.into_iter().flat_map(|s| alphabet.iter().map(move |o| { let mut t = s.clone(); t.push(*o); t })).collect();
+        out = out
+            .into_iter()
+            .flat_map(|s| {
+                alphabet.iter().map(move |o| {
+                    let mut t = s.clone();
+                    t.push(*o);
+                    t
+                })
+            })
+            .collect();
     }
     out
 }
@@ -308,10 +443,26 @@ struct Shared {
     walk: Duration,
 }
 
-async fn scenario(rep: &mut Report, ps: &mut Parsers, rng: &mut Rng, sh: &Shared, sc: &Scenario, sseed: u64) {
+async fn scenario(
+    rep: &mut Report,
+    ps: &mut Parsers,
+    rng: &mut Rng,
+    sh: &Shared,
+    sc: &Scenario,
+    sseed: u64,
+) {
     let tables = sh.tables.clone();
     let global: GlobalHandle = Arc::new(tokio::sync::RwLock::new(new_global()));
-    let mut w = World { global: global.clone(), tables: tables.clone(), sess: vec![None; N_PEERS], pending_cleanup: vec![false; N_PEERS], routes: vec![BTreeSet::new(); N_PEERS], next_port: 40000 + (sseed % 20000) as u16, tag: (sseed % 1_000_000) as u32 * 100, log: Vec::new() };
+    let mut w = World {
+        global: global.clone(),
+        tables: tables.clone(),
+        sess: vec![None; N_PEERS],
+        pending_cleanup: vec![false; N_PEERS],
+        routes: vec![BTreeSet::new(); N_PEERS],
+        next_port: 40000 + (sseed % 20000) as u16,
+        tag: (sseed % 1_000_000) as u32 * 100,
+        log: Vec::new(),
+    };
     // ---- initial state (no station yet)
     w.apply(Op::Up(0), rng).await;
     w.apply(Op::Announce(0), rng).await;
@@ -336,8 +487,17 @@ async fn scenario(rep: &mut Report, ps: &mut Parsers, rng: &mut Rng, sh: &Shared
     let station_addr = listener.local_addr().unwrap();
     let n0 = tables.bmp_senders().len();
     let client = BmpClient::new();
-    BmpClient::try_connect(station_addr, client.cancel.clone(), client.state.clone(), global.clone(), tables.clone(), sc.policy);
-    let Ok(Ok((mut sock, _))) = tokio::time::timeout(Duration::from_secs(10), listener.accept()).await else {
+    BmpClient::try_connect(
+        station_addr,
+        client.cancel.clone(),
+        client.state.clone(),
+        global.clone(),
+        tables.clone(),
+        sc.policy,
+    );
+    let Ok(Ok((mut sock, _))) =
+        tokio::time::timeout(Duration::from_secs(10), listener.accept()).await
+    else {
         rep.inconclusive("the daemon's BMP client did not connect within 10 s");
         client.cancel.cancel();
         return;
@@ -379,7 +539,17 @@ async fn scenario(rep: &mut Report, ps: &mut Parsers, rng: &mut Rng, sh: &Shared
     let window: &Vec<Op> = if late && rng.bool() {
         // live route events of a session that then ends before serve() has read Global
         let p = rng.range(1, 2) as usize;
-        straddle = vec![Op::Up(p), Op::Announce(p), Op::Announce(p), Op::Replace(p), if rng.bool() { Op::EndFsm(p) } else { Op::EndDirect(p) }];
+        straddle = vec![
+            Op::Up(p),
+            Op::Announce(p),
+            Op::Announce(p),
+            Op::Replace(p),
+            if rng.bool() {
+                Op::EndFsm(p)
+            } else {
+                Op::EndDirect(p)
+            },
+        ];
         &straddle
     } else {
         &sc.window
@@ -410,12 +580,21 @@ async fn scenario(rep: &mut Report, ps: &mut Parsers, rng: &mut Rng, sh: &Shared
     // ---- after the window (the station has been sent something): a few more operations, the clean-ups run()
     // would do, one last route per established peer, the anchor's marker
     let t1 = Instant::now();
-    while buf.lock().unwrap().len() < 200 && t1.elapsed() < sh.walk * 4 + Duration::from_millis(20) {
+    while buf.lock().unwrap().len() < 200 && t1.elapsed() < sh.walk * 4 + Duration::from_millis(20)
+    {
         tokio::time::sleep(Duration::from_micros(300)).await;
     }
     for _ in 0..rng.below(4) {
         let p = rng.range(1, 2) as usize;
-        let op = *rng.pick(&[Op::EndFsm(p), Op::EndDirect(p), Op::Up(p), Op::Announce(p), Op::Withdraw(p), Op::Replace(p), Op::Cleanup(p)]);
+        let op = *rng.pick(&[
+            Op::EndFsm(p),
+            Op::EndDirect(p),
+            Op::Up(p),
+            Op::Announce(p),
+            Op::Withdraw(p),
+            Op::Replace(p),
+            Op::Cleanup(p),
+        ]);
         w.apply(op, rng).await;
     }
     for p in 1..=2 {
@@ -431,8 +610,22 @@ async fn scenario(rep: &mut Report, ps: &mut Parsers, rng: &mut Rng, sh: &Shared
     w.tag += 1;
     let marker_tag = w.tag;
     let (src0, _) = w.sess[0].clone().unwrap();
-    let mnlri = Nlri::V4(Ipv4Net { addr: Ipv4Addr::new(172, 17, 255, 0), mask: 24 });
-    tables.insert_route(src0.clone(), Family::IPV4, PathNlri { path_id: 0, nlri: mnlri.clone() }, Some(Nexthop::V4(Ipv4Addr::new(10, 18, 0, 99))), attrs(src0.remote_asn, marker_tag), None, marker_tag);
+    let mnlri = Nlri::V4(Ipv4Net {
+        addr: Ipv4Addr::new(172, 17, 255, 0),
+        mask: 24,
+    });
+    tables.insert_route(
+        src0.clone(),
+        Family::IPV4,
+        PathNlri {
+            path_id: 0,
+            nlri: mnlri.clone(),
+        },
+        Some(Nexthop::V4(Ipv4Addr::new(10, 18, 0, 99))),
+        attrs(src0.remote_asn, marker_tag),
+        None,
+        marker_tag,
+    );
     let mut marker_canon = attrs_canon(&attrs(src0.remote_asn, marker_tag));
     let mut round = 0;
 
@@ -464,10 +657,15 @@ async fn scenario(rep: &mut Report, ps: &mut Parsers, rng: &mut Rng, sh: &Shared
         let mut o = 0usize;
         while data.len() - o >= 6 {
             if data[o] != 3 {
-                verdict = Some(("stream-not-well-formed (C19's)".into(), "BMP stream framing".into(), format!("offset {}", o)));
+                verdict = Some((
+                    "stream-not-well-formed (C19's)".into(),
+                    "BMP stream framing".into(),
+                    format!("offset {}", o),
+                ));
                 break;
             }
-            let l = u32::from_be_bytes([data[o + 1], data[o + 2], data[o + 3], data[o + 4]]) as usize;
+            let l =
+                u32::from_be_bytes([data[o + 1], data[o + 2], data[o + 3], data[o + 4]]) as usize;
             if l < 6 || data.len() - o < l {
                 break;
             }
@@ -476,7 +674,9 @@ async fn scenario(rep: &mut Report, ps: &mut Parsers, rng: &mut Rng, sh: &Shared
             if typ == 4 || body.len() < 42 {
                 continue;
             }
-            let Ok(h) = read_peer_header(body) else { continue };
+            let Ok(h) = read_peer_header(body) else {
+                continue;
+            };
             if h.ptype != 0 {
                 continue;
             }
@@ -484,7 +684,11 @@ async fn scenario(rep: &mut Report, ps: &mut Parsers, rng: &mut Rng, sh: &Shared
             match typ {
                 3 => {
                     open.insert(a);
-                    let rport = if body.len() >= 62 { u16::from_be_bytes([body[60], body[61]]) } else { 0 };
+                    let rport = if body.len() >= 62 {
+                        u16::from_be_bytes([body[60], body[61]])
+                    } else {
+                        0
+                    };
                     log(&mut order, format!("PeerUp {} (remote port {})", a, rport));
                 }
                 2 => {
@@ -501,14 +705,27 @@ async fn scenario(rep: &mut Report, ps: &mut Parsers, rng: &mut Rng, sh: &Shared
                         continue;
                     }
                     for pdu in pdus {
-                        let Ok(Ok(ParsedMessage::Update(ParsedUpdate::Routes { reach, mp_reach, unreach, mp_unreach, attrs, .. }))) = guard(|| codec.parse_message(pdu)) else { continue };
+                        let Ok(Ok(ParsedMessage::Update(ParsedUpdate::Routes {
+                            reach,
+                            mp_reach,
+                            unreach,
+                            mp_unreach,
+                            attrs,
+                            ..
+                        }))) = guard(|| codec.parse_message(pdu))
+                        else {
+                            continue;
+                        };
                         let canon = attrs_canon(&attrs);
                         let fold = folds.entry((a, view)).or_default();
                         let mut what = "withdraw";
                         for r in reach.into_iter().chain(mp_reach) {
                             what = "reach";
                             for e in r.entries {
-                                fold.insert((fam_id(r.family), e.nlri.to_string(), e.path_id), (canon.clone(), nh_str(&r.nexthop)));
+                                fold.insert(
+                                    (fam_id(r.family), e.nlri.to_string(), e.path_id),
+                                    (canon.clone(), nh_str(&r.nexthop)),
+                                );
                             }
                         }
                         for wd in unreach.into_iter().chain(mp_unreach) {
@@ -516,14 +733,31 @@ async fn scenario(rep: &mut Report, ps: &mut Parsers, rng: &mut Rng, sh: &Shared
                                 fold.remove(&(fam_id(wd.family), e.nlri.to_string(), e.path_id));
                             }
                         }
-                        log(&mut order, format!("RouteMonitoring {} {}{}", a, what, if open.contains(&a) { "" } else { " [no PeerUp open for this peer]" }));
+                        log(
+                            &mut order,
+                            format!(
+                                "RouteMonitoring {} {}{}",
+                                a,
+                                what,
+                                if open.contains(&a) {
+                                    ""
+                                } else {
+                                    " [no PeerUp open for this peer]"
+                                }
+                            ),
+                        );
                     }
                 }
                 _ => {}
             }
         }
         let mk: RouteKey = (fam_id(Family::IPV4), mnlri.to_string(), 0);
-        let seen = |v: u8| folds.get(&(peer_addr(0), v)).and_then(|m| m.get(&mk)).is_some_and(|x| x.0 == marker_canon);
+        let seen = |v: u8| {
+            folds
+                .get(&(peer_addr(0), v))
+                .and_then(|m| m.get(&mk))
+                .is_some_and(|x| x.0 == marker_canon)
+        };
         let hit = (!want_pre || seen(0)) && (!want_post || seen(0x40));
         if hit && round == 0 {
             // the first marker may still be part of the snapshot flush (arbitrary order, per peer and view); now
@@ -532,7 +766,18 @@ async fn scenario(rep: &mut Report, ps: &mut Parsers, rng: &mut Rng, sh: &Shared
             round = 1;
             w.tag += 1;
             let t2 = w.tag;
-            tables.insert_route(src0.clone(), Family::IPV4, PathNlri { path_id: 0, nlri: mnlri.clone() }, Some(Nexthop::V4(Ipv4Addr::new(10, 18, 0, 99))), attrs(src0.remote_asn, t2), None, t2);
+            tables.insert_route(
+                src0.clone(),
+                Family::IPV4,
+                PathNlri {
+                    path_id: 0,
+                    nlri: mnlri.clone(),
+                },
+                Some(Nexthop::V4(Ipv4Addr::new(10, 18, 0, 99))),
+                attrs(src0.remote_asn, t2),
+                None,
+                t2,
+            );
             marker_canon = attrs_canon(&attrs(src0.remote_asn, t2));
         } else if hit {
             done = true;
@@ -541,16 +786,34 @@ async fn scenario(rep: &mut Report, ps: &mut Parsers, rng: &mut Rng, sh: &Shared
             tokio::time::sleep(Duration::from_millis(1)).await;
         }
     }
-    let in_window = !open.contains(&probe_addr) && !order.iter().any(|(e, _)| e.starts_with(&format!("PeerUp {} ", probe_addr)));
+    let in_window = !open.contains(&probe_addr)
+        && !order
+            .iter()
+            .any(|(e, _)| e.starts_with(&format!("PeerUp {} ", probe_addr)));
     // ---- judge
     let ctx = |extra: Vec<(&str, Json)>| {
         let mut v = vec![
             ("policy", Json::s(sc.policy_name)),
             ("initial", Json::strs(init_log.iter().cloned())),
-            ("during_the_snapshot", Json::strs(window_log.iter().cloned())),
-            ("all_injected_before_EndOfSnapshot (probe PeerUp not forwarded)", Json::Bool(in_window)),
+            (
+                "during_the_snapshot",
+                Json::strs(window_log.iter().cloned()),
+            ),
+            (
+                "all_injected_before_EndOfSnapshot (probe PeerUp not forwarded)",
+                Json::Bool(in_window),
+            ),
             ("afterwards", Json::strs(post_log.iter().cloned())),
-            ("read_by_station_in_order (pre and post views together)", Json::strs(order.iter().take(60).map(|(e, n)| if *n > 1 { format!("{} x{}", e, n) } else { e.clone() }))),
+            (
+                "read_by_station_in_order (pre and post views together)",
+                Json::strs(order.iter().take(60).map(|(e, n)| {
+                    if *n > 1 {
+                        format!("{} x{}", e, n)
+                    } else {
+                        e.clone()
+                    }
+                })),
+            ),
             ("scenario_seed", Json::Int(sseed as i128)),
         ];
         v.extend(extra);
@@ -559,8 +822,16 @@ async fn scenario(rep: &mut Report, ps: &mut Parsers, rng: &mut Rng, sh: &Shared
     rep.eval();
     if !done {
         rep.count("unjudged:stalled-scenario-marker-not-seen-within-10s");
-        if rep.counters.get("unjudged:stalled-scenario-marker-not-seen-within-10s").copied().unwrap_or(0) > 5 {
-            rep.inconclusive("watchdog: the anchor's marker did not reach the station in several scenarios");
+        if rep
+            .counters
+            .get("unjudged:stalled-scenario-marker-not-seen-within-10s")
+            .copied()
+            .unwrap_or(0)
+            > 5
+        {
+            rep.inconclusive(
+                "watchdog: the anchor's marker did not reach the station in several scenarios",
+            );
         }
     } else if let Some((sig, what, d)) = verdict.clone().filter(|v| v.0.starts_with("C18/")) {
         rep.violation(&sig, &what, ctx(vec![("detail", Json::s(d))]));
@@ -570,20 +841,45 @@ async fn scenario(rep: &mut Report, ps: &mut Parsers, rng: &mut Rng, sh: &Shared
         let empty: BTreeMap<RouteKey, RouteVal> = BTreeMap::new();
         let g = global.read().await;
         for p in 0..N_PEERS {
-            let established = g.peers.get(&peer_addr(p)).unwrap().state.session_addrs.load().is_some();
+            let established = g
+                .peers
+                .get(&peer_addr(p))
+                .unwrap()
+                .state
+                .session_addrs
+                .load()
+                .is_some();
             for (want, view, vname) in [(want_pre, 0u8, "pre"), (want_post, 0x40u8, "post")] {
                 if !want {
                     continue;
                 }
                 rep.eval();
-                let expected = if established { rib_adj_in(&tables, peer_addr(p), view != 0) } else { BTreeMap::new() };
+                let expected = if established {
+                    rib_adj_in(&tables, peer_addr(p), view != 0)
+                } else {
+                    BTreeMap::new()
+                };
                 let got = folds.get(&(peer_addr(p), view)).unwrap_or(&empty);
                 if *got == expected {
-                    rep.count(if established { "stalled:rib-view-equal/established-peer" } else { "stalled:rib-view-equal/departed-peer" });
+                    rep.count(if established {
+                        "stalled:rib-view-equal/established-peer"
+                    } else {
+                        "stalled:rib-view-equal/departed-peer"
+                    });
                     continue;
                 }
-                let missing: Vec<String> = expected.iter().filter(|(k, v)| got.get(*k) != Some(*v)).take(5).map(|(k, _)| format!("{:?}", k)).collect();
-                let surplus: Vec<String> = got.keys().filter(|k| !expected.contains_key(*k)).take(5).map(|k| format!("{:?}", k)).collect();
+                let missing: Vec<String> = expected
+                    .iter()
+                    .filter(|(k, v)| got.get(*k) != Some(*v))
+                    .take(5)
+                    .map(|(k, _)| format!("{:?}", k))
+                    .collect();
+                let surplus: Vec<String> = got
+                    .keys()
+                    .filter(|k| !expected.contains_key(*k))
+                    .take(5)
+                    .map(|k| format!("{:?}", k))
+                    .collect();
                 let sig = if !missing.is_empty() {
                     "C18/bmp-station/adj-rib-in-differs"
                 } else if !established && !open.contains(&peer_addr(p)) {
@@ -600,11 +896,26 @@ async fn scenario(rep: &mut Report, ps: &mut Parsers, rng: &mut Rng, sh: &Shared
                     sig,
                     what,
                     ctx(vec![
-                        ("peer", Json::s(format!("P{} {} ({})", p, peer_addr(p), if established { "established at the end" } else { "no session at the end" }))),
+                        (
+                            "peer",
+                            Json::s(format!(
+                                "P{} {} ({})",
+                                p,
+                                peer_addr(p),
+                                if established {
+                                    "established at the end"
+                                } else {
+                                    "no session at the end"
+                                }
+                            )),
+                        ),
                         ("view", Json::s(vname)),
                         ("rib_holds", Json::Int(expected.len() as i128)),
                         ("station_holds", Json::Int(got.len() as i128)),
-                        ("station_has_open_peer_up", Json::Bool(open.contains(&peer_addr(p)))),
+                        (
+                            "station_has_open_peer_up",
+                            Json::Bool(open.contains(&peer_addr(p))),
+                        ),
                         ("rib_only_or_differing", Json::strs(missing)),
                         ("station_only", Json::strs(surplus)),
                     ]),
@@ -616,27 +927,46 @@ async fn scenario(rep: &mut Report, ps: &mut Parsers, rng: &mut Rng, sh: &Shared
         }
         rep.count("stalled:scenarios-judged");
         // what was exercised
-        rep.count(if in_window { "stalled:scenarios-inside-window" } else { "stalled:scenarios-window-missed" });
+        rep.count(if in_window {
+            "stalled:scenarios-inside-window"
+        } else {
+            "stalled:scenarios-window-missed"
+        });
         if late {
-            rep.count(if in_window { "stalled:late-start-still-inside-window" } else { "stalled:late-start-straddling-the-end-of-the-window" });
+            rep.count(if in_window {
+                "stalled:late-start-still-inside-window"
+            } else {
+                "stalled:late-start-straddling-the-end-of-the-window"
+            });
         }
         if in_window {
             for op in &applied {
                 rep.count(&format!("stalled:in-window/{}", op.kind()));
             }
             for p in 1..=2 {
-                let ends = applied.iter().position(|o| matches!(o, Op::EndFsm(q) | Op::EndDirect(q) if *q == p));
+                let ends = applied
+                    .iter()
+                    .position(|o| matches!(o, Op::EndFsm(q) | Op::EndDirect(q) if *q == p));
                 if let Some(i) = ends {
                     if applied[i..].iter().any(|o| *o == Op::Up(p)) {
                         rep.count("stalled:flap-inside-window");
-                        if applied[i..].iter().any(|o| matches!(o, Op::Announce(q) if *q == p)) {
+                        if applied[i..]
+                            .iter()
+                            .any(|o| matches!(o, Op::Announce(q) if *q == p))
+                        {
                             rep.count("stalled:flap-inside-window-then-route");
                         }
                     }
                 }
             }
             let mut h = format!("{:?}{:?}{}", sc.init_up, applied, sc.policy_name);
-            h.push_str(&format!("{:?}", order.iter().map(|(e, _)| e.split(" (").next().unwrap_or("").to_string()).collect::<Vec<_>>()));
+            h.push_str(&format!(
+                "{:?}",
+                order
+                    .iter()
+                    .map(|(e, _)| e.split(" (").next().unwrap_or("").to_string())
+                    .collect::<Vec<_>>()
+            ));
             rep.nontrivial(fnv64(h.as_bytes()));
         }
         if rep.want_sample() && !applied.is_empty() {
@@ -661,11 +991,29 @@ fn build_shared(rng: &mut Rng, ballast: usize) -> Shared {
     let shards = *rng.pick(&[4usize, 8]);
     let tables: TableHandle = Arc::new(TableManager::new(shards));
     // ballast: routes of a source that is no peer of the Global (walked by subscribe(true), never reported)
-    let src = Arc::new(table::Source::new(IpAddr::V4(Ipv4Addr::new(10, 99, 0, 1)), IpAddr::V4(Ipv4Addr::new(10, 99, 0, 254)), 64999, LOCAL_ASN, Ipv4Addr::new(10, 99, 0, 1), table::PeerRole::Ebgp));
+    let src = Arc::new(table::Source::new(
+        IpAddr::V4(Ipv4Addr::new(10, 99, 0, 1)),
+        IpAddr::V4(Ipv4Addr::new(10, 99, 0, 254)),
+        64999,
+        LOCAL_ASN,
+        Ipv4Addr::new(10, 99, 0, 1),
+        table::PeerRole::Ebgp,
+    ));
     let a = attrs(64999, 1);
     for i in 0..ballast {
-        let nlri = Nlri::V4(Ipv4Net { addr: Ipv4Addr::new(30 + (i >> 16) as u8, (i >> 8) as u8, i as u8, 0), mask: 24 });
-        tables.insert_route(src.clone(), Family::IPV4, PathNlri { path_id: 0, nlri }, Some(Nexthop::V4(Ipv4Addr::new(10, 99, 0, 1))), a.clone(), None, 0);
+        let nlri = Nlri::V4(Ipv4Net {
+            addr: Ipv4Addr::new(30 + (i >> 16) as u8, (i >> 8) as u8, i as u8, 0),
+            mask: 24,
+        });
+        tables.insert_route(
+            src.clone(),
+            Family::IPV4,
+            PathNlri { path_id: 0, nlri },
+            Some(Nexthop::V4(Ipv4Addr::new(10, 99, 0, 1))),
+            a.clone(),
+            None,
+            0,
+        );
     }
     // calibration: how long does the walk of a snapshot take on this table?
     let mut best = Duration::from_secs(3600);
@@ -687,7 +1035,11 @@ fn run() {
     rep.extra("rule_stalled", Json::s("case = one station stream of a scenario in which a short sequence of session / route operations is executed while the station's snapshot is being taken, compared per peer and view with the RIB; non-trivial = every injected operation was queued before EndOfSnapshot (a probe PeerUp event sent after the last one was consumed by the snapshot phase, not forwarded); distinct by (initial state, applied operations, policy, order of message kinds read)"));
     let mut ps = Parsers::new();
     let mut rng = Rng::new(params.seed ^ 0xC18_5000);
-    let Ok(rt) = tokio::runtime::Builder::new_multi_thread().worker_threads(2).enable_all().build() else {
+    let Ok(rt) = tokio::runtime::Builder::new_multi_thread()
+        .worker_threads(2)
+        .enable_all()
+        .build()
+    else {
         rep.inconclusive("cannot build a tokio runtime");
         let _ = rep.finish();
         return;
@@ -703,7 +1055,13 @@ fn run() {
     rng.shuffle(&mut all);
     let n_exh = params.n(170, 1600) as usize;
     let n_rand = params.n(90, 900) as usize;
-    let policies = [(crate::bmp::BmpPolicy::Both, "both"), (crate::bmp::BmpPolicy::Both, "both"), (crate::bmp::BmpPolicy::Pre, "pre"), (crate::bmp::BmpPolicy::Post, "post"), (crate::bmp::BmpPolicy::All, "all")];
+    let policies = [
+        (crate::bmp::BmpPolicy::Both, "both"),
+        (crate::bmp::BmpPolicy::Both, "both"),
+        (crate::bmp::BmpPolicy::Pre, "pre"),
+        (crate::bmp::BmpPolicy::Post, "post"),
+        (crate::bmp::BmpPolicy::All, "all"),
+    ];
     let mut k = 0usize;
     while k < n_exh + n_rand && rep.in_budget() {
         let window: Vec<Op> = if k < n_exh {
@@ -711,9 +1069,21 @@ fn run() {
         } else if rng.chance(1, 3) {
             // a flap while the snapshot is taken: the mark a session's end leaves must not outlive that session
             let p = rng.range(1, 2) as usize;
-            let mut v = vec![if rng.bool() { Op::EndFsm(p) } else { Op::EndDirect(p) }, Op::Up(p)];
+            let mut v = vec![
+                if rng.bool() {
+                    Op::EndFsm(p)
+                } else {
+                    Op::EndDirect(p)
+                },
+                Op::Up(p),
+            ];
             for _ in 0..rng.below(3) {
-                v.push(*rng.pick(&[Op::Announce(p), Op::Replace(p), Op::Withdraw(p), Op::Announce(3 - p)]));
+                v.push(*rng.pick(&[
+                    Op::Announce(p),
+                    Op::Replace(p),
+                    Op::Withdraw(p),
+                    Op::Announce(3 - p),
+                ]));
             }
             v
         } else {
@@ -721,7 +1091,17 @@ fn run() {
             (0..len)
                 .map(|_| {
                     let p = rng.range(1, 2) as usize;
-                    *rng.pick(&[Op::EndFsm(p), Op::EndDirect(p), Op::Up(p), Op::Up(p), Op::Up(p), Op::Announce(p), Op::Withdraw(p), Op::Replace(p), Op::Cleanup(p)])
+                    *rng.pick(&[
+                        Op::EndFsm(p),
+                        Op::EndDirect(p),
+                        Op::Up(p),
+                        Op::Up(p),
+                        Op::Up(p),
+                        Op::Announce(p),
+                        Op::Withdraw(p),
+                        Op::Replace(p),
+                        Op::Cleanup(p),
+                    ])
                 })
                 .collect()
         };
@@ -731,10 +1111,26 @@ fn run() {
         if let Some(Op::EndFsm(p) | Op::EndDirect(p)) = window.first() {
             init_up[*p - 1] = true;
         }
-        let sc = Scenario { init_up, window, policy, policy_name };
+        let sc = Scenario {
+            init_up,
+            window,
+            policy,
+            policy_name,
+        };
         let sseed = rng.next_u64();
-        rt.block_on(scenario(&mut rep, &mut ps, &mut Rng::new(sseed), &sh, &sc, sseed));
-        rep.count(if k < n_exh { "stalled:scenarios-enumerated" } else { "stalled:scenarios-random" });
+        rt.block_on(scenario(
+            &mut rep,
+            &mut ps,
+            &mut Rng::new(sseed),
+            &sh,
+            &sc,
+            sseed,
+        ));
+        rep.count(if k < n_exh {
+            "stalled:scenarios-enumerated"
+        } else {
+            "stalled:scenarios-random"
+        });
         k += 1;
         // subscribers whose serve() future was dropped before it unsubscribed stay registered (closed channel):
         // start over with a fresh table now and then
